@@ -331,41 +331,58 @@ class ParseStream(Stream):
         return "empty" if real_out == "[]" else f"pairs={real_out.count(',') + 1}"
 
 
+JAR_PATHS = [None, "/", "/bar", "/my docs", "/my%20docs", "/caf\u00e9", "/a+b", "/x;y", "/q'uote", "/a b/c d"]
+
+
 class JarStream(Stream):
+    """test client jar: a response sets the cookie (explicit Path attribute, or the default path
+    derived from the request URL), a later request under that path must carry it back unchanged"""
+
     name = "jar"
-    corpus = [{"v": hs(s)} for s in ["plain", "a b", "x;y", 'q"q', "é", "\x00\x1f", "\\", "a,b", "\U0001f600"]]
+    corpus = [{"v": hs(s), "path": None, "explicit": True} for s in ["plain", "a b", "x;y", 'q"q', "é", "\x00\x1f", "\\", "a,b", "\U0001f600", "\\101", "C:\\123\\file", "\\073 Domain=evil.example"]] + [
+        {"v": hs("v"), "path": p, "explicit": e} for p in JAR_PATHS[1:] for e in (True, False)
+    ]
 
     def cases(self, rng, tier):
         n = 0
         while n < (150 if tier == "quick" else 2000):
             n += 1
-            yield {"v": hs(rand_value(rng, 8))}
+            yield {"v": hs(rand_value(rng, 8)), "path": rng.choice(JAR_PATHS), "explicit": rng.random() < 0.6}
 
     def real(self, case):
+        from urllib.parse import quote
+
         from werkzeug.test import Client
         from werkzeug.wrappers import Request, Response
 
         v = unhs(case["v"])
+        base = case.get("path") or ""
+        base = "" if base == "/" else base
 
         @Request.application
         def app(request):
-            if request.path == "/set":
+            if request.path.endswith("/set"):
                 r = Response("ok")
-                r.set_cookie("k", v, samesite="Lax", httponly=True)
+                if case.get("explicit", True):
+                    r.set_cookie("k", v, samesite="Lax", httponly=True, path=case.get("path") or "/")
+                else:
+                    r.set_cookie("k", v, path=None)  # default path: taken from the request URL by the jar
                 return r
             return Response(hs(request.cookies.get("k", "<missing>")) + " " + str(len(request.cookies)))
 
         c = Client(app)
-        c.get("/set")
-        return c.get("/get").get_data(as_text=True)
+        # request paths are sent percent-encoded, as a browser would
+        enc = quote(base, safe="/%")
+        c.get(enc + "/set")
+        return c.get(enc + "/get").get_data(as_text=True)
 
     def oracle(self, case, real_out):
         if real_out != case["v"] + " 1":
-            return f"jar round trip returned {real_out!r}"
+            return f"jar round trip (cookie path {case.get('path')!r}, explicit={case.get('explicit', True)}) returned {real_out!r}"
         return None
 
     def bucket(self, case, real_out):
-        return "jar"
+        return "jar:" + ("explicit" if case.get("explicit", True) else "default") + ":" + ("root" if not case.get("path") or case.get("path") == "/" else "sub")
 
 
 CHECK = Check(
